@@ -136,7 +136,10 @@ REGISTRY = {
         {"bin": "codec_diff", "model": True, "canon": ["panic_is_err"], "quick": ["--n", "200"], "thorough": ["--n", "6000"]},
         {"bin": "storage_diff", "model": True, "stateful": True, "name": "storage_diff-mem", "quick": ["--backend", "mem", "--seqs", "25", "--len", "50"], "thorough": ["--backend", "mem", "--seqs", "600", "--len", "80"]}], "trusted_base": PROTO_TRUST, "assumptions": PROTO_ASSUME},
     "C07": {"props_file": "Props/C07.v", "props_file_extra": ["Props/C07b.v"], "gen": [], "harness": PROTO_HARNESS, "trusted_base": PROTO_TRUST, "assumptions": PROTO_ASSUME},
-    "C08": {"props_file": "Props/C08.v", "gen": [], "harness": PROTO_HARNESS, "trusted_base": PROTO_TRUST, "assumptions": PROTO_ASSUME},
+    "C08": {"props_file": "Props/C08.v", "gen": [], "harness": PROTO_HARNESS + [
+        {"bin": "welcome_diff", "model": True, "stateful": True, "name": "welcome_diff-mem",
+         "quick": ["--backend", "mem", "--seqs", "40", "--len", "14"], "thorough": ["--backend", "mem", "--seqs", "1500", "--len", "20"]}],
+        "trusted_base": PROTO_TRUST + ["invitation path: Mdk/Welcome.v (OpenMLS an oracle: an invitation is decodable or not, targets a held key package or not); welcome_diff compares it with a real recipient"], "assumptions": PROTO_ASSUME},
     "C03": {"props_file": "Props/C03.v", "gen": [], "harness": PROTO_HARNESS, "trusted_base": PROTO_TRUST, "assumptions": PROTO_ASSUME},
     "C05": {"props_file": "Props/C05.v", "gen": [], "harness": PROTO_HARNESS, "trusted_base": PROTO_TRUST, "assumptions": PROTO_ASSUME},
     "C20": {"props_file": "Props/C20.v", "gen": [], "harness": PROTO_HARNESS, "trusted_base": PROTO_TRUST, "assumptions": PROTO_ASSUME},
